@@ -262,7 +262,7 @@ def run(pid):
         tag = "%s_%s" % (fc["id"], fe.replace("-", ""))
         tp = os.path.join(wd, "trace_%s.ndjson" % tag)
         j = {"file": fc, "fe": fe, "log_data": False, "seekable": with_seeks,
-             "random": {"n": nrun, "len": 25, "seed": fc["seed"], "random_chunks": not with_seeks}}
+             "random": {"n": nrun, "len": 25, "seed": fc["seed"], "random_chunks": not with_seeks, "faults": with_seeks}}
         res = run_drive("reader", {"out": tp, "jobs": [j]}, wd, tag=tag)
         return tp, res
 
